@@ -176,9 +176,11 @@ class Ctx:
             'bounds': self.bounds,
             'outside_claim': self.outside,
             'stubs': self.stubs,
+            'obligations': len(self.obligations),
+            'discharged': n_holds,
             'obligations_total': len(self.obligations),
             'obligations_holding': n_holds,
-            'obligations': self.obligations[:400],
+            'obligation_list': self.obligations[:400],
             'reachability_twins_refuted': self.twins,
             'solver_seconds': round(self.solver_s, 3),
             'solver': _solver_version(),
@@ -203,6 +205,16 @@ class Ctx:
         os.makedirs(EVIDENCE_DIR, exist_ok=True)
         with open(os.path.join(EVIDENCE_DIR, f"{self.pid}.json"), 'w') as f:
             json.dump(ev, f, indent=1, default=str)
+        # self-check of the evidence just written against the published schema (when it is present on this machine)
+        try:
+            import jsonschema
+            sp = '/root/.vp/EVIDENCE.schema.json'
+            if os.path.exists(sp):
+                jsonschema.validate(json.load(open(os.path.join(EVIDENCE_DIR, f"{self.pid}.json"))), json.load(open(sp)))
+        except ImportError:
+            pass
+        except Exception as e:  # an invalid evidence file counts as no evidence: say so loudly
+            print(f"WARNING evidence file does not validate against the schema: {str(e)[:300]}", file=sys.stderr)
         print(f"[{self.pid}/{self.tier}] {status}: {n_holds}/{len(self.obligations)} obligations hold, "
               f"paths={self.paths} queries={self.queries} validated={self.validated} twins={self.twins} "
               f"solver={self.solver_s:.1f}s wall={wall:.1f}s known={len(self.known)} "
